@@ -425,7 +425,55 @@ def stream_asyncio(ctx):
             break
 
 
+def stream_shapes(ctx):
+    """message shapes the queue items could be confused with: empty text, texts equal to str(None)/str(True),
+    falsy/odd payloads – every accepted message must be written, complete() and remove() must return"""
+    import loguru._logger as lg
+    rng = ctx.rng.fork("shapes")
+    shapes = ["", "None", "True", "0", " ", "\n", "x"]
+    for ci in range(ctx.n(6, 60)):
+        msgs = [rng.choice(shapes) for _ in range(rng.range(2, 6))]
+        if "" not in msgs:
+            msgs[rng.below(len(msgs))] = ""
+        got = []
+        logger = lg.Logger(core=lg.Core(), exception=None, depth=0, record=False, lazy=False, colors=False, raw=False,
+                           capture=True, patchers=[], extra={})
+        dyn = rng.chance(50)
+        if dyn:
+            hid = logger.add(lambda m: got.append(str(m)), enqueue=True, format=lambda r: "{message}", catch=False)
+        else:
+            hid = logger.add(lambda m: got.append(str(m)), enqueue=True, format="{message}", catch=False)
+        bad = []
+        done = threading.Event()
+
+        def work():
+            for m in msgs:
+                if dyn:
+                    logger.info(m)              # dynamic format without terminator: text == message
+                else:
+                    logger.opt(raw=True).info(m)
+            logger.complete()
+            done.set()
+        th = threading.Thread(target=work, daemon=True)
+        th.start()
+        if not done.wait(20):
+            bad.append("complete() did not return within 20 s after logging %r through an enqueue handler" % (msgs,))
+        elif got != msgs:
+            bad.append("enqueue handler wrote %r for the logged texts %r" % (got, msgs))
+        else:
+            rdone = threading.Event()
+            threading.Thread(target=lambda: (logger.remove(hid), rdone.set()), daemon=True).start()
+            if not rdone.wait(20):
+                bad.append("remove() did not return within 20 s")
+        ctx.case(("shapes", tuple(msgs), dyn), nontrivial=True)
+        ctx.stat("shapes")
+        if bad:
+            ctx.violation(bad[0], {"stream": "shapes", "messages": msgs, "dynamic_format": dyn})
+            break
+
+
 def run(ctx):
+    stream_shapes(ctx)
     stream_sched(ctx)
     stream_mp(ctx)
     stream_asyncio(ctx)
@@ -448,7 +496,7 @@ def replay(ctx, rep):
         finally:
             shutil.rmtree(base, ignore_errors=True)
     else:
-        print("asyncio cases are re-generated from the seed: run the check with the same VERIF_SEED")
+        print("asyncio / shapes cases are re-generated from the seed: run the check with the same VERIF_SEED")
         return 1
     for b in bad:
         print("VIOLATED:", b)
